@@ -238,6 +238,21 @@ class Sym(CoverMixin):
         if not cond:
             raise _ch().util.IgnoreAttempt("assumption")
 
+    def cover(self, label, cond=True):
+        """Coverage goal (vacuity guard).  A symbolic condition is not branched on: the goal counts
+        as reached when the solver says the condition is satisfiable under this path's condition."""
+        if label in self.covered:
+            return
+        ch = _ch()
+        with ch.tr.NoTracing():
+            var = getattr(cond, "var", None)
+            if var is not None and ch.z3.is_bool(var):
+                if self.space.is_possible(var):
+                    self.covered.add(label)
+                return
+        if cond:
+            self.covered.add(label)
+
     def note(self, k, v):
         self.notes[k] = v
 
